@@ -436,6 +436,20 @@ Theorem C09_smiles_check_options : forall (m : str) (ia : bool) (G1 H1 G2 H2 : m
 Proof. exact smiles_check_full_spec. Qed.
 Print Assumptions C09_smiles_check_options.
 
+(** validate_smiles (compared on every `validate` case): per mapper column one verdict per record, in record order, each the
+    verdict of smiles_check on (the record's mapped string, the record's ground truth) in THIS argument order with the given
+    method / ignore_aromaticity; the count is the number of accepted records *)
+Theorem C09_validate_smiles_spec : forall (m : str) (ia : bool) (ncols : nat) (rows : list orow),
+  length (validate_smiles m ia ncols rows) = ncols /\
+  forall k, (k < ncols)%nat ->
+    let c := nth k (validate_smiles m ia ncols rows) ([], 0%nat, 0%nat) in
+    length (fst (fst c)) = length rows /\ snd c = length rows /\
+    (forall i, (i < length rows)%nat ->
+       nth i (fst (fst c)) false = smiles_check_full m ia (nth k (snd (nth i rows (None, []))) None) (fst (nth i rows (None, [])))) /\
+    snd (fst c) = length (filter (fun b : bool => b) (fst (fst c))) /\ (snd (fst c) <= snd c)%nat.
+Proof. exact validate_smiles_spec. Qed.
+Print Assumptions C09_validate_smiles_spec.
+
 (** FixAAM.fix_aam_rsmi (every map number + 1; [fix_aam_graph], compared with the re-parsed output on every `fixaam` case) is a
     renumbering the validator accepts by both methods *)
 Theorem C09_fix_aam_accepted : forall G H : mgraph, wf G -> wf H ->
